@@ -136,7 +136,8 @@ func runC02(c *Ctx) {
 		checkStartupWalk(c, "C02-R4")
 		// disconnects are acted upon only once the wallet is marked synced: the one place that marks it always does
 		checkRescanFinishedAlwaysMarksSynced(c, "C02-R4")
-		c.Check("C02-R4", "Rollback-reaches-rollback", roll.Pos(), p.reachSet(roll)[p.Func("wtxmgr", "Store", "rollback")], "Store.Rollback no longer reaches rollback")
+		worker := wtxFn(c, "C02-R4", "rollback") // the wrapper itself where the two were folded into one
+		c.Check("C02-R4", "Rollback-reaches-rollback", roll.Pos(), worker == roll || p.reachSet(roll)[worker], "Store.Rollback no longer reaches rollback")
 		// ... on every success path: block records exist only for blocks that hold a wallet transaction, so no
 		// property of the block at `height` itself can justify skipping the walk over the blocks above it
 	}
@@ -147,7 +148,12 @@ func checkRollbackWalk(c *Ctx, rule string) {
 	// the exported entry runs the walk on every success path: block records exist only for blocks that hold a wallet
 	// transaction, so no property of the block at `height` itself can justify skipping the walk over the blocks above it
 	if roll := c.P.Func("wtxmgr", "Store", "Rollback"); roll != nil {
-		bad := c.P.mustPassToSuccess(roll, nil, isCallNamed("rollback"), nil)
+		walk := isCallNamed("rollback")
+		if c.P.Func("wtxmgr", "Store", "rollback") == nil && c.P.Func("wtxmgr", "", "rollback") == nil {
+			// wrapper and worker folded into one function: the walk is its loop over the block records (the iterator's step)
+			walk = isCallNamed("prev")
+		}
+		bad := c.P.mustPassToSuccess(roll, nil, walk, nil)
 		c.Check(rule, "Rollback-always-runs-rollback", roll.Pos(), bad == nil,
 			"Store.Rollback can report success without running rollback (e.g. a shortcut on the block record at exactly the requested height): blocks above a wallet-empty height stay connected after a multi-block reorg")
 	} else {
